@@ -86,8 +86,9 @@ Proof.
 Qed.
 
 (* ------------------------------------------------------------------ *)
-(* C02's theorems on every constructed knot vector *)
-From Verif.C02 Require Proofs_ref Props.
+(* C02's theorems on every constructed knot vector (through the lemmas C02/Props.v closes them with,
+   so that this file does not have to be rebuilt whenever C02/Props.v gains a theorem) *)
+From Verif.C02 Require Proofs_ref Proofs_ndu Proofs_single.
 
 Lemma make_knots_ends p a b n mult : (1 <= n)%nat -> (1 <= mult)%nat ->
   kn (make_knots p a b n mult) 0 = a /\
@@ -118,12 +119,12 @@ Proof.
   assert (H1 : u <= kn kv (length kv - 1)) by (rewrite E1; exact Hu1).
   assert (Hlen : (2 * p + 2 <= length kv)%nat) by (destruct Hok; assumption).
   assert (Hi : forall i, (i < numdofs kv p)%nat -> (i + p + 1 < length kv)%nat) by (unfold numdofs; intros; lia).
-  split; [exact Hopen|]. split; [apply Props.N_partition_of_unity_all; assumption|].
-  split; [intros i Hd; apply Props.N_nonneg; [destruct Hok; assumption|apply Hi; exact Hd]|].
-  split; [intros i Hd Hn'; apply Props.N_local; auto|].
+  split; [exact Hopen|]. split; [apply Proofs_ref.N_partition_of_unity_all_l; assumption|].
+  split; [intros i Hd; apply Proofs_ref.N_nonneg_l; [destruct Hok; assumption|apply Hi; exact Hd]|].
+  split; [intros i Hd Hn'; apply Proofs_ref.N_local_l; auto|].
   split.
   - intros i Hd. split.
-    + apply Props.single_ev_eq_spec; [exact Hopen|apply Hi; exact Hd].
-    + apply Props.colloc_row_values; assumption.
-  - intros k Hk. apply Props.dN_sum_zero_all; assumption.
+    + apply Proofs_single.single_ev_eq_spec_l; [exact Hopen|apply Hi; exact Hd].
+    + apply Proofs_ndu.colloc_row_values_l; assumption.
+  - intros k Hk. apply Proofs_ref.dN_sum_zero_all_l; assumption.
 Qed.
